@@ -1,23 +1,53 @@
-From V Require Import Base.Bytes Base.Obs Model.Escape Model.Tok.
+From V Require Import Base.Bytes Base.Obs Model.Escape Model.Tok Model.Hole.
 Inductive case :=
 | CEscape (s : bytes)          (* html.EscapeString / escapeAttrValue / a serialised text node *)
-| CTok (s : bytes).            (* the tokenizer fragment on an arbitrary string *)
+| CTok (s : bytes)             (* the tokenizer fragment on an arbitrary string *)
+| CMini (r : env) (t : list tnode).   (* the miniature evaluator of Model/Hole.v on concrete data *)
+(* canonical print of a DOM: adjacent text merged, whitespace removed from text, empty text dropped *)
+Definition strip_ws (s : bytes) : bytes := filter (fun c => negb (is_hws c)) s.
+Inductive item := ITxt (s : bytes) | IEl (tag : bytes) (a : list (bytes * bytes)) (k : list item).
+Fixpoint to_item (fuel : nat) (n : onode) : item :=
+  match fuel with O => ITxt [] | S f =>
+  match n with
+  | OText h => ITxt (strip_ws (fill [] h))
+  | OElem tag a kids => IEl tag (map (fun kv => (fst kv, fill [] (snd kv))) a) (map (to_item f) kids)
+  end end.
+Fixpoint merge_items (l : list item) : list item :=
+  match l with
+  | ITxt a :: r => match merge_items r with ITxt b :: r' => ITxt (a ++ b) :: r' | m => ITxt a :: m end
+  | x :: r => x :: merge_items r
+  | [] => []
+  end.
+Fixpoint show_item (fuel : nat) (i : item) : bytes :=
+  match fuel with O => [] | S f =>
+  match i with
+  | ITxt [] => []
+  | ITxt s => bs "[" ++ s ++ bs "]"
+  | IEl tag a k =>
+      bs "<" ++ tag ++ flat_map (fun kv => bs " " ++ fst kv ++ bs "=" ++ snd kv) a ++ bs ">" ++
+      flat_map (show_item f) (merge_items k) ++ bs "</" ++ tag ++ bs ">"
+  end end.
 Definition obs_tok (t : token) : obs :=
   match t with
   | TStart n a => OL (OS "start" :: OA n :: map (fun kv => OA (fst kv)) a)
   | TEnd n => OL [OS "end"; OA n]
-  | TText r => OL [OS "text"; OA r]
+  | Tok.TText r => OL [OS "text"; OA r]
   end.
 (* adjacent text tokens are merged: how a tokenizer chunks character data is not observable *)
 Fixpoint merge_text (l : list token) : list token :=
   match l with
-  | TText a :: r => match merge_text r with TText b :: r' => TText (a ++ b) :: r' | m => TText a :: m end
+  | Tok.TText a :: r => match merge_text r with Tok.TText b :: r' => Tok.TText (a ++ b) :: r' | m => Tok.TText a :: m end
   | x :: r => x :: merge_text r
   | [] => []
   end.
 Definition run (c : case) : obs :=
   match c with
   | CEscape s => OL [OA (escape s); OA (escape s); OA (escape s)]
+  | CMini r t =>
+      match evals_with (eval 40) r t with
+      | Ok d => OA (flat_map (show_item 40) (merge_items (map (to_item 40) d)))
+      | _ => OL [OS "error"]
+      end
   | CTok s =>
       let '(st, out) := Tok.run (Data []) s in
       let flush := match st with Data txt => emit_text txt | TagOpen txt => emit_text (txt ++ [x3c]) | _ => [] end in
